@@ -8,6 +8,7 @@ package hsx
 
 import (
 	"bufio"
+	"crypto/sha256"
 	"encoding/json"
 	"flag"
 	"fmt"
@@ -282,6 +283,14 @@ func Explore(c *vlib.Ctx, rule string, cfgs ...Config) {
 			}
 			sort.Slice(outs, func(a, b int) bool { return less(outs[a].h, outs[b].h) })
 			var next [][]int
+			if kl := os.Getenv("HSX_KEYLOG"); kl != "" {
+				if f, err := os.OpenFile(kl, os.O_APPEND|os.O_CREATE|os.O_WRONLY, 0o644); err == nil {
+					for _, o := range outs {
+						fmt.Fprintf(f, "%s\t%v\t%x\n", cfg.Name, hname(cfg, o.h), sha256.Sum256([]byte(o.r.Key)))
+					}
+					f.Close()
+				}
+			}
 			for _, o := range outs {
 				if o.r.Key == "" && o.r.Violation == "" {
 					continue
